@@ -339,12 +339,21 @@ Proof.
       * destruct k; discriminate.
 Qed.
 
-Lemma close_lock_inv s c : Inv s -> Inv (set_closed (set_cl s c) true).
+(* setting closed (by the first Close or by a further one) with subs, lock, fanout untouched *)
+Lemma close_frame_inv s s' :
+  subs s' = subs s -> lock s' = lock s -> fanout s' = fanout s -> closed s' = true ->
+  Inv s -> Inv s'.
 Proof.
-  intros [HL HQ]. split; cbn [lock fanout closed subs set_closed set_cl].
+  intros E1 E2 E3 E4 [HL HQ]. unfold Inv. rewrite E1, E2, E3, E4. split.
   - exact HL.
   - intros j bj Hj. unfold Qb. eapply Qo_close. apply HQ; exact Hj.
 Qed.
+
+Lemma close_lock_inv s c : Inv s -> Inv (set_closed (set_cl s c) true).
+Proof. apply close_frame_inv; reflexivity. Qed.
+
+Lemma close2_lock_inv s c2 : Inv s -> Inv (set_closed (set_cl2 s c2) true).
+Proof. apply close_frame_inv; reflexivity. Qed.
 
 (* ---------------------------------------------------------------------------------------- *)
 (* every step preserves the invariant *)
@@ -454,6 +463,21 @@ Proof.
     apply close_lock_inv; exact HI.
   - (* CloseWait *)
     destruct (cl s); try discriminate. destruct (forallb _ _); inversion Hs; subst; exact HI.
+  - (* Close2Call *)
+    destruct (cl s); try discriminate; inversion Hs; subst;
+      (eapply Inv_frame; [reflexivity.. | exact HI]).
+  - (* Close2LoopDone *)
+    destruct (nth_error (cl2 s) j) as [[id []]|]; try discriminate.
+    destruct (loop_dead s); inversion Hs; subst.
+    eapply Inv_frame; [reflexivity.. | exact HI].
+  - (* Close2Lock *)
+    destruct (nth_error (cl2 s) j) as [[id []]|]; try discriminate.
+    destruct (lock s); inversion Hs; subst.
+    apply close2_lock_inv; exact HI.
+  - (* Close2Wait *)
+    destruct (nth_error (cl2 s) j) as [[id []]|]; try discriminate.
+    destruct (forallb _ _); inversion Hs; subst.
+    eapply Inv_frame; [reflexivity.. | exact HI].
 Qed.
 
 Theorem Inv_reachable vr iv s : reachable vr iv s -> Inv s.
